@@ -17,7 +17,7 @@ INFIX = {"*": pyop.mul, "+": pyop.add, "-": pyop.sub, "/": pyop.truediv, "^": py
 METHOD = {"*": "gp", "+": "add", "-": "sub", "/": "div", "^": "op", "&": "rp", "|": "ip", ">>": "sw", "@": "proj"}
 METHODS_ONLY = ["cp", "acp", "lc", "rc", "sp"]
 UN = ["neg", "reverse", "involute", "conjugate", "normsq", "hodge", "inv"]
-NUMKINDS = ["int", "float", "Fraction", "np.float64", "np.int64"]
+NUMKINDS = ["int", "float", "Fraction", "np.float64", "np.int64", "complex", "np.complex128", "bool"]
 RULE = ("case kinds: (array) operator on multivectors whose coefficients are arrays of trailing shape (), (n,), (n,m) -- one "
         "ndarray or a list of arrays -- compared after indexing with a generated index expression (ints, negative ints, slices, "
         "tuples, fancy lists) against the operator applied to the indexed operands; (number) a Python / numpy number on either side of every "
@@ -67,7 +67,7 @@ def _index(draw, shape):
 @st.composite
 def _cases(draw):
     kind = draw(st.sampled_from(["array", "array", "number", "number", "sequence", "sequence", "callable", "setitem"]))
-    cfg = draw(S.configs(1, 3, dweights=[1, 2, 2, 3, 3, 3]))
+    cfg = draw(S.configs(1, 4, dweights=[1, 2, 2, 3, 3, 3, 4]))
     d = len(cfg["sig"])
     classes = ["single", "sparse", "puregrade", "puregrade", "perm", "gradeblock"]
     a = draw(S.operand(d, classes=classes, max_len=5, min_len=1, zero_prob=0.0))
@@ -81,6 +81,7 @@ def _cases(draw):
         case["container"] = draw(st.sampled_from(["ndarray", "list-of-arrays"]))
         case["index"] = draw(_index(shape))
         case["bshape"] = draw(st.sampled_from(["same", "same", "scalar"]))
+        case["dtypes"] = [draw(st.sampled_from(["float", "float", "int"])), draw(st.sampled_from(["float", "float", "int"]))]
         case["unary"] = draw(st.sampled_from([None, None] + UN))
     if kind == "number":
         case["numkind"] = draw(st.sampled_from(NUMKINDS))
@@ -184,6 +185,12 @@ def _number(kind, s):
         return v
     if kind == "np.float64":
         return np.float64(float(v))
+    if kind == "complex":
+        return complex(float(v), 2.0)
+    if kind == "np.complex128":
+        return np.complex128(complex(float(v), -1.5))
+    if kind == "bool":
+        return True
     return np.int64(int(v.numerator))
 
 
@@ -203,11 +210,18 @@ def evaluate(case):
     if kind == "array":
         shape = tuple(case["shape"])
         A = _arrvals(case["a"]["vals"], shape, 1)
+        dta, dtb = case.get("dtypes", ["float", "float"])
+        if case.get("unary") == "inv" or op in ("/", "div"):
+            dta = dtb = "float"       # numpy refuses integer ** negative: integer-dtype arrays cannot be inverted at all
         if op in ("+", "-", "add", "sub"):
             # a sum of an array-valued and a scalar-valued multivector stores arrays on some blades and plain numbers on
             # others; the statement is about array-valued coefficients, so both operands get the same trailing shape here
             case = dict(case, bshape="same")
         Bv = _arrvals(case["b"]["vals"], shape, 2) if case["bshape"] == "same" else np.array(fb)
+        if dta == "int":
+            A = np.rint(A * 4).astype(np.int64)          # integer-dtype coefficients (mixed with float ones: no truncation allowed)
+        if dtb == "int" and case["bshape"] == "same":
+            Bv = np.rint(Bv * 4).astype(np.int64)
         def mkmv(keys, arr, scalar=False):
             if scalar:
                 return kd.mk_raw(alg, keys, [float(v) for v in arr])
